@@ -451,3 +451,35 @@ func TestRegr_C11_deep_reorg_load(t *testing.T) {
 	}
 	vt.KnownFinding(t, col, "C11-deepreorg", fails, detail)
 }
+
+// TestRegr_C17_listed_after_accept: a hash that is already on the invalid list while its header is
+// still held - the operator added it to Config.InvalidHeaderHashes after the header had been
+// accepted and saved, and restarted - used to make MarkHeaderInvalid a no-op ("already marked"):
+// the header and everything built on it stayed on the reported best chain. Repaired by "fix: trim a
+// header that is marked invalid while it is already on the list".
+func TestRegr_C17_listed_after_accept(t *testing.T) {
+	ctx := vt.Ctx()
+	store := memstoreNew()
+	repo := headers.NewRepository(&headers.Config{Network: bitcoin.MainNet, MaxBranchDepth: 144}, store)
+	repo.DisableDifficulty()
+	repo.InitializeWithGenesis()
+	raws := chainOf(t, repo, 5)
+	if err := repo.Save(ctx); err != nil {
+		t.Fatal(err)
+	}
+	bad := bitcoin.Hash32(raws[3].Hash())
+	loaded := headers.NewRepository(&headers.Config{Network: bitcoin.MainNet, MaxBranchDepth: 144, InvalidHeaderHashes: []bitcoin.Hash32{bad}}, store)
+	loaded.DisableDifficulty()
+	if err := loaded.Load(ctx); err != nil {
+		t.Fatal(err)
+	}
+	if err := loaded.MarkHeaderInvalid(ctx, bad); err != nil {
+		t.Fatalf("MarkHeaderInvalid: %s", err)
+	}
+	if h := loaded.Height(); h != 2 {
+		t.Fatalf("header at height 3 is on the invalid list (configuration) and was marked invalid again, but the reported chain still has height %d", h)
+	}
+	if err := loaded.ProcessHeader(ctx, toWire(&raws[3])); errors.Cause(err) != headers.ErrHeaderMarkedInvalid {
+		t.Fatalf("resubmission of the marked header answered %v", err)
+	}
+}
